@@ -486,7 +486,7 @@ def addItem (st : RState) (it : Item) : Except String RState :=
   | none, _ => .error "item outside module"
   | some _, some _ => .error "item inside function (not produced by the writer)"
 
-def applyStmt (st : RState) : Stmt → Except String RState
+def applyStmt (cfg : Cfg) (st : RState) : Stmt → Except String RState
   | .modBegin n =>
     match st.mod with
     | some _ => .error "nested module"
@@ -508,7 +508,9 @@ def applyStmt (st : RState) : Stmt → Except String RState
     | some m =>
       if declared m.decl it then addItem st (.ref nm it d)
       else .error "ref data refers to non-existing item"
-  | .lref nm l1 l2 d => addItem st (.lref nm l1 (if l2 < 2 ^ 63 then some l2 else none) d)
+  | .lref nm l1 l2 d =>
+    -- `lab2 = i < 0 ? NULL : to_lab (ctx, i)`
+    addItem st (.lref nm l1 (if l2 < 2 ^ 63 ∧ ¬ (cfg.lrefZeroIsNone = true ∧ l2 = 0) then some l2 else none) d)
   | .expr nm fn =>
     match st.mod with
     | none => .error "item outside module"
@@ -567,7 +569,7 @@ def readLoop (cfg : Cfg) (tab : List Str) : Nat → RState → List Byte → Exc
     | .error e => .error e
     | .ok (.eof, _) => finish st
     | .ok (s, rest) =>
-      match applyStmt st s with
+      match applyStmt cfg st s with
       | .error e => .error e
       | .ok st' => readLoop cfg tab fuel st' rest
 
